@@ -248,6 +248,12 @@ class Program(object):
         self._callers = None
         self._subclasses = None
 
+    def library_funcs(self):
+        """Functions defined in the library itself (src/, include/) or instantiated for it by the /verif/inst drivers — not tests,
+        examples or bundled third-party code, which the thorough tier parses only as additional instantiation sources."""
+        pref = (os.path.join(REPO, "src") + os.sep, os.path.join(REPO, "include") + os.sep, os.path.join(VERIF, "inst") + os.sep)
+        return [f for f in self.funcs.values() if f.file.startswith(pref)]
+
     # ---- lookup ----
     def find(self, base, min_count=1, exact=False):
         """Functions whose template-stripped qualified name equals `base`."""
